@@ -3,15 +3,15 @@ contracts carry it, the bounded stand-ins that accompany it and the evidence lev
 
 PROPERTIES = {
     'C02': dict(
-        modules=['filters', 'rule', 'builder', 'webproc'], level='proof',
+        modules=['filters', 'rule', 'builder', 'webproc', 'ftpproc'], level='proof',
         claim='Every URL filter\'s test() equals a reference predicate written from the option\'s documented meaning, for all URLs, records and '
               'filter parameters; the demultiplexer\'s verdict is the conjunction over the configured list and its failed set is exact; FetchRule waives only '
               'the span-hosts rule and only on a redirect; every check_* entry point returns that verdict; the option->filter builder installs every '
               'configured rule with the option values (all 256 option paths). Proved per function by VCs generated from the real source; loops by '
               'inductive invariants (no bound).',
         note='regex and fnmatch engines are uninterpreted (the contracts still pin which string is matched against which pattern); '
-             'URLInfo.parse of stored URLs is assumed not to raise (table invariant: stored URLs are normalised); scripting hooks disconnected; the processor typestate (verdict precedes every request, web.py/ftp.py) is not yet under contract',
-        not_decided=['that WebProcessorSession / FTPProcessorSession consult the verdict before every request (typestate) -- planned'],
+             'URLInfo.parse of stored URLs is assumed not to raise (table invariant: stored URLs are normalised); scripting hooks disconnected; the web processor's typestate (the request about to be sent is the one the filters approved last, ghost g_approved) is under contract in specs/webproc.py; at the FTP processor the parent-directory listing is under contract (specs/ftpproc.py) and is a recorded known finding',
+        not_decided=['FTPProcessorSession.process/_fetch/_add_listing_links bodies: only _fetch_parent_path is under contract'],
     ),
     'C18': dict(
         modules=['redirect', 'websession', 'itemsession', 'webproc'], level='proof',
